@@ -219,6 +219,8 @@ func main() {
 		honest(a, w, rng, res)
 	case "streams":
 		streams(a, w, rng, res)
+	case "params":
+		params(a, res)
 	default:
 		hx.Fatal("unknown subcommand")
 	}
